@@ -267,7 +267,7 @@ End LoopInv.
 Lemma lex_f_log_ok : forall f ls src ln toks ls', lex_f f ls src ln = Ok (toks, ls') -> LI ls -> LI ls'.
 Proof.
   induction f as [|f IH]; intros ls src ln toks ls' H I; [discriminate H|].
-  rewrite lex_f_unfold in H. unfold LOOP in H. eapply LOOPG_log_ok; [exact IH|exact H|exact I].
+  rewrite lex_f_unfold in H. destruct (lex_pre src); [discriminate H|]. unfold LOOP in H. eapply LOOPG_log_ok; [exact IH|exact H|exact I].
 Qed.
 Lemma lex_log_ok ls src ln toks ls' :
   lex ls src ln = Ok (toks, ls') -> zlen (lx_logs ls) <= SAKURA_MAX_LOGS -> zlen (lx_logs ls') <= SAKURA_MAX_LOGS.
